@@ -311,6 +311,8 @@ void MainSolver::printResolutionProofSMT2(std::ostream & os) const {
 
 std::unique_ptr<UnsatCore> MainSolver::getUnsatCore() const {
     if (not config.produce_unsat_cores()) { throw ApiException("Producing unsat cores is not enabled"); }
+    // the option may have been set after the solver was created without proof tracking
+    if (not smt_solver->logsResolutionProof()) { throw ApiException("Proofs are not tracked"); }
     if (status != s_False) { throw ApiException("Unsat core cannot be extracted if solver is not in UNSAT state"); }
 
     UnsatCoreBuilder unsatCoreBuilder{*this};
@@ -334,6 +336,7 @@ lbool MainSolver::getTermValue(PTRef tr) const {
 
 std::unique_ptr<InterpolationContext> MainSolver::getInterpolationContext() {
     if (!config.produce_inter()) { throw ApiException("Producing interpolants is not enabled"); }
+    if (not smt_solver->logsResolutionProof()) { throw ApiException("Proofs are not tracked"); }
     if (status != s_False) {
         throw ApiException("Interpolation context cannot be created if solver is not in UNSAT state");
     }
